@@ -78,6 +78,42 @@ def _round_null(names, prods, summaries, nonnullable, hard):
     return out
 
 
+def _one_garbage(n):
+    a = _ARGS
+    try:
+        return n, gprod.is_nullable(n, a['prods'][n], a['nonnullable'], a.get('hard', ()), a['summaries'], garbage=a['garbage'])
+    except Exception as e:
+        return n, None
+
+
+def _round_garbage(names, prods, summaries, nonnullable, hard, garbage):
+    global _ARGS
+    _ARGS = {'prods': prods, 'summaries': summaries, 'nonnullable': nonnullable, 'hard': hard, 'garbage': garbage}
+    out = {}
+    if len(names) <= 2 or os.environ.get('VERIF_SERIAL'):
+        for n in names:
+            out[n] = _one_garbage(n)[1]
+        return out
+    ctx = mp.get_context('fork')
+    with ctx.Pool(min(16, os.cpu_count() or 4)) as pool:
+        for n, v in pool.imap_unordered(_one_garbage, names, chunksize=4):
+            out[n] = v
+    return out
+
+
+def callees_map(results):
+    cm = {}
+    for n, r in results.items():
+        if r['status'] != 'ok':
+            continue
+        cs = cm.setdefault(n, set())
+        for p in r['paths']:
+            for ev in (p.get('log') or []):
+                if len(ev) > 1 and ev[0] in ('ok', 'err', 'many', 'failure', 'inline'):
+                    cs.add(ev[1])
+    return cm
+
+
 def callers_of(results, targets):
     cs = set()
     for n, r in results.items():
@@ -180,7 +216,50 @@ def _run_grammar(tier, only, prog, prods, cpath):
     if redo:
         results.update(_round(redo, prods, summaries, nonnull, max_paths, time_cap, hard))
         rounds.append({'round': 'v1-with-nonnullability', 'analysed': len(redo)})
-    out = {'hard_failing': sorted(hard), 'results': results, 'summaries': {k: {a: list(b) for a, b in v.items()} for k, v in summaries.items()}, 'nullable': sorted(nullable), 'nullability_unknown': sorted(unknown),
+    # garbage-first fixpoint (C14): G = productions whose body can succeed having consumed, at its entry position, a byte that
+    # starts no token.  Least fixpoint from the empty set: callees outside G are assumed not to consume such a byte (induction on
+    # the depth of the finite execution); the helper closures symbol(t)/keyword(t) are covered at their call sites (literal t).
+    gnames = [n for n in names if prods[n][0] != 'terminal']
+    garbage = set()
+    gunknown = set()
+    t1 = time.time()
+    redo = gnames
+    for it in range(30):
+        upd = _round_garbage(redo, prods, summaries, nonnull, hard, frozenset(garbage))
+        new = {n for n, v in upd.items() if v is not False} - garbage
+        gunknown |= {n for n, v in upd.items() if v is None}
+        rounds.append({'round': 'garbage-first-%d' % it, 'analysed': len(redo), 'added': sorted(new)[:40]})
+        print('[grun] garbage-first round %d: analysed %d, added %d (%.0fs)' % (it, len(redo), len(new), time.time() - t1), file=sys.stderr, flush=True)
+        if not new:
+            break
+        garbage |= new
+        redo = sorted((callers_of(results, new) - garbage) & set(gnames))
+        if not redo:
+            break
+    cm = callees_map(results)
+    import re, glob
+    src_index = {}
+    root = os.path.join(os.environ.get('VERIF_REPO', '/repo'), 'sv-parser-parser', 'src')
+    for fp in sorted(glob.glob(os.path.join(root, '**', '*.rs'), recursive=True)):
+        if os.sep + 'tests' in fp[len(root):]:
+            continue
+        try:
+            for m in re.finditer(r'\bfn\s+(\w+)\s*[(<]', open(fp).read()):
+                src_index.setdefault(m.group(1), 'sv-parser-parser/src/' + os.path.relpath(fp, root))
+        except Exception:
+            pass
+    files = {}
+    for n in names:
+        kind, body, outer = prods[n]
+        m = re.search(r'sv-parser-parser/src/[\w/.-]+?\.rs', (getattr(body, 'closure_span', None) or '') + ' ' + body.header)
+        if not m:
+            try:
+                m = re.search(r'sv-parser-parser/src/[\w/.-]+?\.rs', gprod.callees_text(prog, body))
+            except Exception:
+                m = None
+        files[n] = m.group(0) if m else src_index.get(n.split('::')[-1])
+    out = {'prod_files': files, 'garbage_consuming': sorted(garbage), 'garbage_unknown': sorted(gunknown), 'callees': {k: sorted(v) for k, v in cm.items()},
+           'hard_failing': sorted(hard), 'results': results, 'summaries': {k: {a: list(b) for a, b in v.items()} for k, v in summaries.items()}, 'nullable': sorted(nullable), 'nullability_unknown': sorted(unknown),
            'rounds': rounds, 'wall': round(time.time() - t0, 1), 'tier': tier, 'cached': False, 'n_productions': len(names)}
     if only is None:
         try:
